@@ -47,7 +47,7 @@ type UserCodec struct{}
 
 func (UserCodec) Encode(m vivid.Message) ([]byte, error) {
 	u, ok := m.(*UserMsg)
-	if !ok {
+	if !ok || u == nil {
 		return nil, fmt.Errorf("user codec: unsupported %T", m)
 	}
 	return []byte(fmt.Sprintf("%d|%s", u.A, u.S)), nil
